@@ -46,11 +46,13 @@ type AST struct {
 
 // Hay is the reference's verdict on one haystack.
 type Hay struct {
-	H   []int   `json:"h"`
-	AF  [][]int `json:"af"`  // FindAllSubmatchIndex(h,-1), leftmost-first
-	AL  [][]int `json:"al"`  // ... leftmost-longest
-	AtF [][]int `json:"atf"` // Find from every symbol position, leftmost-first
-	AtL [][]int `json:"atl"`
+	H    []int   `json:"h"`
+	AF   [][]int `json:"af"`  // FindAllSubmatchIndex(h,-1), leftmost-first
+	AL   [][]int `json:"al"`  // ... leftmost-longest
+	AtF  [][]int `json:"atf"` // Find from every symbol position, leftmost-first
+	AtL  [][]int `json:"atl"`
+	Anc  [][]int `json:"anc"`  // leftmost-first match starting exactly at each symbol position
+	Ends [][]int `json:"ends"` // all match ends per start position
 	// replace / split records
 	Rep   []RepOut  `json:"rep,omitempty"`
 	Split []SplitIO `json:"split,omitempty"`
